@@ -697,6 +697,7 @@ the comments of the signals (formats/dbc.py ~300-370).  `WFrame` is a frame as t
 structure WSig where
   sg : SgLine
   comment : Option Str := none
+  values : List (Int × Str) := []     -- the value table, in the order the `VAL_` line lists it
   deriving Repr, DecidableEq, Inhabited
 
 structure WFrame where
@@ -721,24 +722,30 @@ def WFrame.cmStmts (f : WFrame) : List FileStmt :=
 def WFrame.sigCmStmts (f : WFrame) : List FileStmt :=
   f.sigs.filterMap fun s => s.comment.map fun c => .cm (.sg f.bo.id s.sg.name) c
 
-/-- the lines of the core of a file -/
+def WFrame.valStmts (f : WFrame) : List FileStmt :=
+  f.sigs.filterMap fun s => if s.values.isEmpty then none else some (.one (.val ⟨f.bo.id, s.sg.name, s.values⟩))
+
+/-- the lines of the core of a file: frame section, further senders, comments of the frames, comments of the signals, value tables of the
+signals (the sections in the order of `dump`; the attribute statements that stand between the comments and the `VAL_` lines are not
+part of the core) -/
 def writeCore (fs : List WFrame) : List Str :=
   writeFrames (fs.map WFrame.block) ++
-  writeFile (fs.flatMap WFrame.txStmts ++ fs.flatMap WFrame.cmStmts ++ fs.flatMap WFrame.sigCmStmts)
+  writeFile (fs.flatMap WFrame.txStmts ++ fs.flatMap WFrame.cmStmts ++ fs.flatMap WFrame.sigCmStmts ++ fs.flatMap WFrame.valStmts)
 
 /-- what the reader is expected to have built for such a frame (numbers of the `SG_` lines as they are read back) -/
 def WFrame.expect (f : WFrame) (k : Nat × Bool) : RFrame :=
   { key := k, name := f.bo.name, size := f.bo.size, transmitters := f.senders,
-    sigs := f.sigs.map fun s => { sg := rereadSg s.sg, comment := s.comment },
+    sigs := f.sigs.map fun s => { sg := rereadSg s.sg, comment := s.comment, values := s.values },
     comment := f.comment, complexMux := f.sigs.any fun s => tagIsValMuxer s.sg.tag }
 
 /-- the envelope: well-formed lines, the number denotes the identifier `k`, senders pairwise different identifiers, comments the statement
-can carry, signal names pairwise different -/
+can carry, value texts without backslash or line break and pairwise different keys, signal names pairwise different -/
 def WFrame.wf (f : WFrame) (k : Nat × Bool) : Bool :=
   wfBlock f.block && boKey f.bo == some k && keyOfCompound f.bo.id == some k &&
   f.senders.all isIdent && decide f.senders.Nodup &&
   (match f.comment with | some c => wfComment c | none => true) &&
   f.sigs.all (fun s => match s.comment with | some c => wfComment c | none => true) &&
+  f.sigs.all (fun s => s.values.all (fun e => wfText e.2) && decide ((s.values.map (·.1)).Nodup)) &&
   decide ((f.sigs.map (·.sg.name)).Nodup)
 
 end CanVerif.Dbc
